@@ -21,6 +21,8 @@ POOL = [
     ("multipart_nodes", ["mls_vnode", "mls_multijunction", "mls_vnode_start"]),
     # ... and in defects that single-part rows find through their trace candidates (candidate selection must follow the fixed frame)
     ("multipart_candidates", ["mls_underlap", "mls_stacked", "mls_multicross", "mls_overlap"]),
+    # the third label the stateful under/overlap validator can write (STACKED), next to the two others
+    ("stacked_snap", ["stacked_dangling", "overlap", "underlap"]),
 ]
 
 
@@ -81,7 +83,7 @@ def run_history(hist):
 
 def s13_histories(ctx):
     import_fractopo()
-    res = StreamResult("S13-histories", rule="pool of 10 frames containing every defect kind (incl. multi-part lines that form V-nodes / junctions, or take part in snap / stacking / crosscut defects of other rows, once merged); ALL ordered pairs of fresh validations (100, exhaustive) + every frame validated / its output re-validated / the first object re-run + random "
+    res = StreamResult("S13-histories", rule="pool of 11 frames containing every defect kind (incl. multi-part lines that form V-nodes / junctions, or take part in snap / stacking / crosscut defects of other rows, once merged); ALL ordered pairs of fresh validations (121, exhaustive) + every frame validated / its output re-validated / the first object re-run + random "
                        "histories of new / re-run-same-object / re-validate-earlier-output operations, all in one process; each step compared with the result "
                        "of validating that frame once in a fresh interpreter; non-trivial = history in which two different frames are validated")
     rng = random.Random(f"{ctx.seed}:S13")
